@@ -23,7 +23,7 @@ var (
 	c08Bound  = flag.Int("bound", 2, "preemption bound of the exhaustive part")
 	c08Cap    = flag.Int("cap", 300, "cap on explored schedules per request set")
 	c08Random = flag.Int("random", 40, "random schedules per request set beyond the bound")
-	c08Kinds  = flag.String("kinds", "dup,inbox,like,follow,add,outbox,forward2,add2,remove2,likebad,accept2,refused", "request-set kinds")
+	c08Kinds  = flag.String("kinds", "dup,inbox,like,follow,add,outbox,forward2,add2,remove2,likebad,accept2,refused,faulty", "request-set kinds")
 )
 
 type abortSignal struct{}
@@ -195,9 +195,15 @@ type concResult struct {
 	global    []entry
 }
 
-func runConc(w0 *world, cfg config, reqs []*scenario, prefix []int, rnd *rng, noWait map[int]bool) concResult {
+func runConc(w0 *world, cfg config, reqs []*scenario, prefix []int, rnd *rng, noWait map[int]bool, faultAt map[int]int) concResult {
 	w := copyWorld(w0)
 	r := newRecorder(w, &cfg, nil)
+	if len(faultAt) > 0 {
+		r.tfaults, r.tnFall = map[int]map[int]bool{}, map[int]int{}
+		for t, k := range faultAt {
+			r.tfaults[t] = map[int]bool{k: true}
+		}
+	}
 	s := &csched{r: r, locks: map[string]int{}, prefix: prefix, finished: make(chan struct{}), rnd: rnd, noWait: noWait}
 	r.sched = &scheduler{impl: s}
 	actor := buildActor(r) // ONE actor for all concurrent requests
@@ -361,6 +367,7 @@ func permutations(n int) [][]int {
 // ---- request sets ------------------------------------------------------------------------------------------
 
 type reqSet struct {
+	faultAt map[int]int // request -> index of its own fallible call that fails
 	noWait map[int]bool // requests whose Lock does not wait
 	kind string
 	w    *world
@@ -482,6 +489,19 @@ func genReqSet(r *rng, kind string, k int) reqSet {
 			a["object"] = jmap{"type": "Note", "id": fmt.Sprintf("%s/notes/c%d-%d", remote, k, j), "content": "x"}
 			rs.reqs = append(rs.reqs, inboxScenario("conc:refused", w, cfg, a))
 		}
+	case "faulty": // two Follows of one actor (automatic Accept) and a client Note addressed to that actor, one of the three with
+		// one failing call - at every position in turn: whatever a failure leaves behind, the other requests complete and their
+		// updates are there
+		rs.cfg.OnFollow = 1
+		for i := 0; i < 2; i++ {
+			a := inboxAct("Follow", i, remoteActors[i])
+			a["object"] = alice
+			rs.reqs = append(rs.reqs, inboxScenario("conc:faulty", w, rs.cfg, a))
+		}
+		b := jmap{"@context": asCtx, "type": "Note", "content": fmt.Sprintf("c%d", k), "to": []interface{}{alice, remoteActors[2]}}
+		rs.reqs = append(rs.reqs, outboxScenario("conc:faulty", w, rs.cfg, b))
+		w.InboxForActor[alice] = inboxOf(alice)
+		rs.faultAt = map[int]int{[]int{0, 2}[(k/28)%2]: k % 28}
 	case "forward2": // two forwardable activities naming two owned collections in opposite orders
 		for i := 0; i < 2; i++ {
 			a := inboxAct("Create", i, pick(r, remoteActors[:3]))
@@ -533,7 +553,12 @@ func runC08() {
 	deadlocks := 0
 	k := 0
 	for _, kind := range kinds {
-		for i := 0; i < *c08N; i++ {
+		nsetsKind, capKind, randKind := *c08N, *c08Cap, *c08Random
+		if kind == "faulty" { // one request set per (request, position of the failing call)
+			nsetsKind, capKind, randKind = 56, 30, 6
+			k = 0
+		}
+		for i := 0; i < nsetsKind; i++ {
 			k++
 			rs := genReqSet(r, kind, k)
 			// what the same requests put into the collections when executed one after another (every order)
@@ -563,6 +588,9 @@ func runC08() {
 						}
 						sc := *rs.reqs[j]
 						sc.World = w
+						if k, ok := rs.faultAt[j]; ok {
+							sc.Faults = []int{k}
+						}
 						res := runScenario(&sc)
 						w = res.Final
 					}
@@ -578,7 +606,7 @@ func runC08() {
 			seen := map[string]bool{}
 			stack := [][]int{{}}
 			runOne := func(prefix []int, rnd *rng) concResult {
-				cr := runConc(rs.w, rs.cfg, rs.reqs, prefix, rnd, rs.noWait)
+				cr := runConc(rs.w, rs.cfg, rs.reqs, prefix, rnd, rs.noWait, rs.faultAt)
 				explored++
 				perKind[kind]++
 				s.Evaluations++
@@ -600,7 +628,7 @@ func runC08() {
 				meta = append(meta, map[string]interface{}{"kind": kind, "set": k, "schedule": sched, "deadlock": cr.deadlock, "requests": bodies(rs.reqs), "final": fin, "locks_that_do_not_wait": len(rs.noWait), "foreign_releases": cr.foreign})
 				return cr
 			}
-			for len(stack) > 0 && explored < *c08Cap {
+			for len(stack) > 0 && explored < capKind {
 				// breadth first: every schedule with one preemption before any with two (a deadlock or a lost update
 				// between two requests needs one preemption at the right call)
 				prefix := stack[0]
@@ -638,7 +666,7 @@ func runC08() {
 					}
 				}
 			}
-			for j := 0; j < *c08Random; j++ {
+			for j := 0; j < randKind; j++ {
 				runOne(nil, &rng{s: r.next()})
 			}
 			flush()
